@@ -21,6 +21,7 @@ import (
 	"sync"
 	"sync/atomic"
 	"testing"
+	"testing/synctest"
 
 	"github.com/ARM-software/golang-utils/utils/filesystem"
 	"github.com/ARM-software/golang-utils/utils/hashing"
@@ -59,7 +60,7 @@ func reference(algo string, data []byte) string {
 type op struct {
 	Kind  string // ok | fail | cancel
 	Len   int    // content length
-	Chunk int    // reader chunk size (0 = everything at once)
+	Chunk int    // reader chunk size (0 = everything at once; -1 = everything at once, together with io.EOF; -7 = chunks of 7, the last one together with io.EOF)
 	At    int    // byte at which the reader fails / the context is cancelled
 }
 
@@ -87,6 +88,7 @@ type scriptedReader struct {
 	data   []byte
 	pos    int
 	chunk  int
+	eofWithData bool // the last bytes are returned together with io.EOF (allowed by the io.Reader contract; flate/zip readers do it)
 	failAt int // -1 never
 	cancel context.CancelFunc
 	cancAt int // -1 never
@@ -121,6 +123,9 @@ func (r *scriptedReader) Read(p []byte) (int, error) {
 	}
 	copy(p, r.data[r.pos:r.pos+n])
 	r.pos += n
+	if r.eofWithData && r.pos >= len(r.data) && r.failAt < 0 && r.cancAt < 0 {
+		return n, io.EOF
+	}
 	return n, nil
 }
 
@@ -131,6 +136,9 @@ func alphabet(thorough bool) []op {
 		chunks := []int{0, 7}
 		if l <= 65 && l > 0 {
 			chunks = append(chunks, 1)
+		}
+		if l > 0 {
+			chunks = append(chunks, -1, -7) // last bytes delivered together with io.EOF
 		}
 		for _, c := range chunks {
 			a = append(a, op{Kind: "ok", Len: l, Chunk: c})
@@ -151,6 +159,13 @@ func apply(h hashing.IHash, algo string, o op, salt byte) (got, want string, err
 	ctx, cancel := context.WithCancel(context.Background())
 	defer cancel()
 	r := &scriptedReader{data: data, chunk: o.Chunk, failAt: -1, cancAt: -1, cancel: cancel}
+	if o.Chunk < 0 {
+		r.eofWithData = true
+		r.chunk = -o.Chunk
+		if o.Chunk == -1 {
+			r.chunk = 0
+		}
+	}
 	switch o.Kind {
 	case "fail":
 		r.failAt = o.At
@@ -322,6 +337,24 @@ func TestC20(t *testing.T) {
 		}
 	}
 
+	// a calculation cancelled while its reader is BLOCKED in Read, the reader waking up during the next calculation on the
+	// same hasher (virtual scheduling: testing/synctest tells whether the cancelled call has returned or is still blocked)
+	blockedCases := 0
+	for _, algo := range algos {
+		for _, k := range []int{0, 1, 64} {
+			for _, l2 := range []int{0, 1, 65, 4096} {
+				blockedCases++
+				transitions.Add(2)
+				got, want, note := blockedReaderCase(t, algo, k, l2)
+				if got != want {
+					rep.Violation(fmt.Sprintf("wrong-digest:algo=%s:prev=cancel-while-reader-blocked", algo), violation{algo, []string{fmt.Sprintf("cancel(blocked after %d bytes)", k), fmt.Sprintf("ok(len=%d)", l2)}, got, want, note})
+				} else {
+					validated.Add(1)
+				}
+			}
+		}
+	}
+	rep.Coverage["blocked_reader_cases"] = blockedCases
 	rep.Coverage["states"] = states.Load()
 	rep.Coverage["transitions"] = transitions.Load()
 	rep.Coverage["traces_validated_against_impl"] = validated.Load()
@@ -334,4 +367,92 @@ func TestC20(t *testing.T) {
 	rep.Coverage["explanation"] = "states = histories (sequences of calculations on one hasher object) of length 1..depth over the alphabet, each replayed on a fresh real hasher; transitions = calculations executed; validated = successful calculations whose digest equals the reference package's one-shot digest"
 	rep.Assume = []string{"reference digests come from crypto/md5, crypto/sha1, crypto/sha256, x/crypto/blake2b, OneOfOne/xxhash, spaolacci/murmur3 on a fresh state", "sequential use of a hasher (the property says so)"}
 	rep.Finish()
+}
+
+// gatedReader delivers `first`, then blocks in Read until released, then delivers `rest`.
+type gatedReader struct {
+	first, rest []byte
+	stage       int
+	blocked     chan struct{}
+	release     chan struct{}
+}
+
+func (g *gatedReader) Read(p []byte) (int, error) {
+	switch g.stage {
+	case 0:
+		g.stage = 1
+		if len(g.first) > 0 {
+			return copy(p, g.first), nil
+		}
+		fallthrough
+	case 1:
+		g.stage = 2
+		close(g.blocked)
+		<-g.release
+		return copy(p, g.rest), nil
+	}
+	return 0, io.EOF
+}
+
+// blockedReaderCase: calculation 1 reads k bytes, its reader blocks, its context is cancelled; calculation 2 (content of
+// length l2) runs on the same hasher and, after its first chunk, the stalled reader of calculation 1 is released.
+func blockedReaderCase(t *testing.T, algo string, k, l2 int) (got, want, note string) {
+	synctest.Test(t, func(t *testing.T) {
+		h, err := hashing.NewHashingAlgorithm(algo)
+		if err != nil {
+			note = err.Error()
+			return
+		}
+		ctx, cancel := context.WithCancel(context.Background())
+		g := &gatedReader{first: content(k, 3), rest: content(100, 4), blocked: make(chan struct{}), release: make(chan struct{})}
+		done := make(chan struct{})
+		go func() { defer close(done); _, _ = h.CalculateWithContext(ctx, g) }()
+		<-g.blocked
+		cancel()
+		synctest.Wait()
+		returned := false
+		select {
+		case <-done:
+			returned = true
+		default:
+		}
+		data := content(l2, 5)
+		want = reference(algo, data)
+		if !returned {
+			// the call is still inside the blocked Read: let it finish (it reports the cancellation), then calculate
+			close(g.release)
+			<-done
+			got, err = h.Calculate(&scriptedReader{data: data, chunk: 7, failAt: -1, cancAt: -1})
+			note = "cancelled call returned only after its reader woke up"
+		} else {
+			// the call returned while its reader is still blocked: the reader wakes up in the middle of the next calculation
+			r2 := &wakingReader{inner: &scriptedReader{data: data, chunk: 7, failAt: -1, cancAt: -1}, wake: func() { close(g.release); synctest.Wait() }}
+			got, err = h.Calculate(r2)
+			if !r2.woke {
+				close(g.release)
+			}
+			note = "cancelled call returned while its reader was still blocked"
+		}
+		if err != nil {
+			got = "error: " + err.Error()
+		}
+		synctest.Wait()
+	})
+	return
+}
+
+// wakingReader runs wake() once, right after its first Read.
+type wakingReader struct {
+	inner *scriptedReader
+	wake  func()
+	woke  bool
+}
+
+func (w *wakingReader) Read(p []byte) (int, error) {
+	n, err := w.inner.Read(p)
+	if !w.woke {
+		w.woke = true
+		w.wake()
+	}
+	return n, err
 }
